@@ -29,12 +29,12 @@ type zzSecret struct {
 
 type zzC04World struct {
 	*zzMgrWorld
-	secrets []zzSecret
-	public  []zzSecret
-	scanned int
+	secrets     []zzSecret
+	public      []zzSecret
+	scanned     int
 	sealScanned int
-	pubPass []byte
-	prvPass []byte
+	pubPass     []byte
+	prvPass     []byte
 }
 
 func (w *zzC04World) addSecret(name string, b []byte) {
